@@ -18,7 +18,7 @@ ROOT = os.path.dirname(os.path.dirname(os.path.abspath(__file__)))
 REQUIRED = ["no_loss", "admitted_by_commit", "only_admitted_delivered", "save_event_reaches_every_subscriber", "add_with_shelf_fault_admits_nothing", "duplicate_add_changes_nothing", "fact_save_event_all_or_nothing", "payload_event_per_transaction", "identical_payload_witness", "payload_no_loss_partial", "payload_available_no_loss_fails", "not_admitted_unchanged", "no_call_after_done",
             "no_call_after_done_split", "completed_job_gone", "call_after_done_without_presence_check", "call_after_done_when_write_back_recreates", "shared_key_witness",
             "delay_monotone", "delay_doubles", "resume_delay_continues", "resume_delay_monotone", "spawn_base_is_recorded_failures_plus_one", "typed_of_filter", "realSubs_are_the_registrations",
-            "resume_skips_event_finished_meanwhile", "restart_redelivers", "notify_reschedules_unless_fatal", "storage_fault_is_rescheduled", "rescheduled_loop_exists", "delivered_at_least_once", "eventual_delivery", "eventual_delivery_from_start", "failed_visible",
+            "resume_skips_event_finished_meanwhile", "restart_redelivers", "loop_survives_storage_fault", "storage_fault_ended_loop_before_repair", "notify_reschedules_unless_fatal", "storage_fault_is_rescheduled", "rescheduled_loop_exists", "delivered_at_least_once", "eventual_delivery", "eventual_delivery_from_start", "failed_visible",
             "completed_or_visible", "parked_witness",
             "fact_retry_constants", "fact_retry_arithmetic", "fact_retry_backoff", "fact_notifyNow_retries", "fact_notify_drops_only_event_fatal",
             "fact_run_replays_every_job", "fact_start_runs_every_notifier", "fact_receiver_error_classification", "fact_registration_receivers", "fact_cleanup_only_named_subscriber_and_prefix", "fact_subscribers_persist_on_the_dag_store", "fact_save_only_new_events", "fact_failed_events_threshold", "fact_save_in_write_tx_notify_after_commit",
@@ -87,6 +87,7 @@ def oracle(h, threshold):
     completed = {}      # (s, r) -> index of completion
     called = set()      # (s, r) with a non-crash call
     finfail_keys = set()
+    loopfault_keys = set()
     types_delivered = {}
     fin_during = set()
     prev_jobs = {}
@@ -148,10 +149,9 @@ def oracle(h, threshold):
                            f"subscriber {subs[s]['name']} called again for {ty} event of ref {r} (line {h.start + i}) after its completion was recorded (line {h.start + completed[(s, r)]})", i)
             if o == "doneFinishFail":
                 finfail_keys.add((s, r))
-            # a storage fault of the notifier itself INSIDE a running retry loop ends that loop (retry-go stops on
-            # Unrecoverable) - as coded, the job then waits for the next restart; during Notify / Run it is rescheduled
+            # a storage fault of the notifier itself INSIDE a running retry loop: the loop must go on (one attempt spent)
             if o in ("readFault", "notDoneWriteFail", "failWriteFail") and kind == "fire":
-                finfail_keys.add((s, r))
+                loopfault_keys.add((s, r))
             if o == "notDoneFin":   # Finished() ran (and deleted the job) while the receiver was running: completion is on record
                 completed.setdefault((s, r), i)
                 fin_during.add((s, r))
@@ -208,7 +208,11 @@ def oracle(h, threshold):
                                f"subscriber {subs[s]['name']} (no type filter) selects the transaction and the payload event of ref {r} but only the {got} event was delivered; its single job is finished", i)
             for (s, r), j in jobs.items():
                 if j[1] < threshold and j[2] != "ctx" and (s, r) not in finfail_keys and s < len(subs) and typed(subs[s]["filters"]):
-                    report("C14:undelivered-job-not-visible-as-failed", f"job {subs[s]['name']}/{r} rests with retries={j[1]} (< {threshold}) and no retry pending", i)
+                    if (s, r) in loopfault_keys:
+                        report("C14:transient-storage-fault-ends-retry-loop-until-restart",
+                               f"job {subs[s]['name']}/{r}: a transient storage fault of the notifier inside its running retry loop ended the loop; the job rests with retries={j[1]} (< {threshold}), not retried and not visible as failed until the next restart", i)
+                    else:
+                        report("C14:undelivered-job-not-visible-as-failed", f"job {subs[s]['name']}/{r} rests with retries={j[1]} (< {threshold}) and no retry pending", i)
         prev_jobs = jobs
     return out
 
